@@ -2,7 +2,7 @@ from .base import *
 
 ID = 'C04'
 THEOREMS = ['C04_spellings', 'C04_divf_spellings', 'C04_sub_self', 'C04_sub_canon', 'C04_sub_blade',
-            'C04_lift_range', 'C04_sub_total']
+            'C04_lift_range', 'C04_sub_total', 'C04_add_sub']
 OWNED = {'ASub', 'ADivA', 'ADivF'}
 RULE = ('blade differences enumerated exhaustively over [-64,64] (quick) / [-4096,4096] (thorough) at several base blades, crossed with six remainder-gap classes '
         '(equal, gap < 1e-15, gap = 1e-15 +- ulps, gap < 1e-10, arbitrary, borrow); all 8 spellings of angle - angle and angle / angle; (a+b)-b; a-a; '
